@@ -827,6 +827,7 @@ type stringMap struct {
 	valueType Type
 	data      map[string]Value
 	keys      []string
+	gone      map[string]bool // deleted keys that are still listed in keys
 }
 
 func (m *stringMap) Len() int { return len(m.data) }
@@ -842,17 +843,30 @@ func (m *stringMap) Get(k Value) (Value, bool) {
 func (m *stringMap) Set(k, v Value) {
 	key := string(k.value.(stringT))
 	if _, ok := m.data[key]; !ok {
-		m.keys = append(m.keys, key)
+		if m.gone[key] {
+			delete(m.gone, key)
+		} else {
+			m.keys = append(m.keys, key)
+		}
 	}
 	m.data[key] = v.assign(m.valueType)
 }
 
 func (m *stringMap) Delete(k Value) {
-	delete(m.data, string(k.value.(stringT)))
+	key := string(k.value.(stringT))
+	if _, ok := m.data[key]; !ok {
+		return
+	}
+	delete(m.data, key)
 	if len(m.data) >= (len(m.keys) >> 1) {
+		if m.gone == nil {
+			m.gone = map[string]bool{}
+		}
+		m.gone[key] = true
 		return
 	}
 	m.keys = maps.Keys(m.data)
+	m.gone = nil
 }
 
 func (m *stringMap) Range() func() (Value, Value, bool) {
@@ -896,6 +910,7 @@ type numericMap struct {
 	valueType Type
 	data      map[float64]Value
 	keys      []float64
+	gone      map[float64]bool // deleted keys that are still listed in keys
 }
 
 func newNumericMap(keyType, valueType Type, in []Value) Value {
@@ -922,17 +937,30 @@ func (m *numericMap) Get(k Value) (Value, bool) {
 func (m *numericMap) Set(k, v Value) {
 	key := k.num
 	if _, ok := m.data[key]; !ok {
-		m.keys = append(m.keys, key)
+		if m.gone[key] {
+			delete(m.gone, key)
+		} else {
+			m.keys = append(m.keys, key)
+		}
 	}
 	m.data[key] = v.assign(m.valueType)
 }
 
 func (m *numericMap) Delete(k Value) {
-	delete(m.data, k.num)
+	key := k.num
+	if _, ok := m.data[key]; !ok {
+		return
+	}
+	delete(m.data, key)
 	if len(m.data) >= (len(m.keys) >> 1) {
+		if m.gone == nil {
+			m.gone = map[float64]bool{}
+		}
+		m.gone[key] = true
 		return
 	}
 	m.keys = maps.Keys(m.data)
+	m.gone = nil
 }
 
 func (m *numericMap) Range() func() (Value, Value, bool) {
